@@ -3,7 +3,7 @@
 // failed checks: assertion failed: c.desired_freq.abs() <= slew_max @ /verif/kani/ntp_proto/algorithm/kalman/mod.rs:340
 // re-run natively against the real code:  /verif/check C02 --replay /verif/replays/C02-c02_p_slew_frequency_bounded.rs
 //meta {"property": "C02", "crate_dir": "ntp-proto", "harness": "algorithm::kalman::verif::c02_p_slew_frequency_bounded", "harness_file": "/verif/kani/ntp_proto/algorithm/kalman/mod.rs", "features": [], "transform": true, "c_ffi": false}
-// native replay: reproduced
+// native replay: not-run
 /// Test generated for harness `algorithm::kalman::verif::c02_p_slew_frequency_bounded` 
 ///
 /// Check for `assertion`: "assertion failed: c.desired_freq.abs() <= slew_max"
@@ -20,7 +20,7 @@
 /// logic.
 
 #[test]
-fn kani_concrete_playback_c02_p_slew_frequency_bounded_3757720160861792211() {
+fn kani_concrete_playback_c02_p_slew_frequency_bounded_1585874029959834143() {
     let concrete_vals: Vec<Vec<u8>> = vec![
         // 0ul
         vec![0, 0, 0, 0, 0, 0, 0, 0],
@@ -30,36 +30,34 @@ fn kani_concrete_playback_c02_p_slew_frequency_bounded_3757720160861792211() {
         vec![0],
         // 0
         vec![0],
-        // 1
-        vec![1],
-        // 4611686018427387904
-        vec![0, 0, 0, 0, 0, 0, 0, 64],
         // 0
         vec![0],
         // 0
         vec![0],
         // 0
         vec![0],
-        // 9223372036819407117
-        vec![13, 81, 228, 253, 255, 255, 255, 127],
-        // -1.340781e+154
-        vec![0, 0, 0, 0, 0, 0, 240, 223],
+        // 0
+        vec![0],
+        // 9223372036854775796
+        vec![244, 255, 255, 255, 255, 255, 255, 127],
+        // 1.735121e+307
+        vec![64, 255, 2, 233, 124, 181, 184, 127],
         // 0
         vec![0, 0, 0, 0, 0, 0, 0, 0],
-        // 0
-        vec![0],
-        // 2.001953
-        vec![1, 0, 0, 0, 0, 4, 0, 64],
-        // 0.25
-        vec![255, 255, 255, 255, 255, 255, 207, 63],
-        // 0.001111
-        vec![179, 23, 198, 64, 77, 50, 82, 63],
-        // 0.131759
-        vec![83, 210, 255, 126, 119, 221, 192, 63],
-        // -0.008235
-        vec![83, 210, 255, 126, 119, 221, 128, 191],
         // 1
-        vec![0, 0, 0, 0, 0, 0, 240, 63],
+        vec![1],
+        // 5.467208
+        vec![115, 56, 126, 226, 107, 222, 21, 64],
+        // 0.004407
+        vec![32, 15, 146, 191, 154, 12, 114, 63],
+        // 0.013951
+        vec![137, 139, 108, 224, 110, 146, 140, 63],
+        // 7.864320e+5
+        vec![255, 255, 255, 255, 255, 255, 39, 65],
+        // -0.022714
+        vec![71, 63, 211, 100, 59, 66, 151, 191],
+        // 0.628078
+        vec![68, 35, 239, 0, 54, 25, 228, 63],
         // 0
         vec![0],
         // 0
@@ -81,6 +79,12 @@ fn kani_concrete_playback_c02_p_slew_frequency_bounded_3757720160861792211() {
 }
 
 /* native run output:
-panicked at /verif/kani/ntp_proto/algorithm/kalman/mod.rs:340:9:
-assertion failed: c.desired_freq.abs() <= slew_max
+error: unexpected argument '--no-assertion-reach-checks' found
+
+  tip: to pass '--no-assertion-reach-checks' as a value, use '-- --no-assertion-reach-checks'
+
+Usage: cargo-kani playback --unstable <UNSTABLE_FEATURE> [-- [TEST_ARGS]...]
+
+For more information, try '--help'.
+
 */
